@@ -65,7 +65,7 @@ func writeEvidence(prop, tier string, seed int, results []*harnessResult, pc *Pr
 		h := map[string]interface{}{
 			"harness": r.cfg.Name, "mode": r.mode, "entry": r.cfg.Pkg + "." + r.cfg.Entry,
 			"paths": ex.paths, "path_kinds": ex.pathKinds, "decisions": ex.decisions,
-			"solver_queries": ex.queries, "sliced_query_cache_hits": ex.cacheHits, "solver_definite": ex.definite, "solver_unknown": ex.unknowns,
+			"solver_queries": ex.queries, "sliced_query_cache_hits": ex.cacheHits, "solver_definite": ex.definite, "solver_unknown": ex.unknowns, "solver_retried_with_larger_limit": ex.retried,
 			"solver_time_s": round2(ex.solveTime.Seconds()), "wall_s": round2(r.wall.Seconds()), "ssa_instructions": ex.steps,
 			"bounds": r.cfg.Bounds, "bound_params": r.cfg.Params, "outside_claim": r.cfg.Outside,
 			"functions_encoded_frp": frp, "functions_encoded_golib": golib, "functions_encoded_other_deps": other, "functions_encoded_stdlib_count": len(std),
